@@ -12,6 +12,7 @@ import (
 	"os"
 	"os/exec"
 	"path/filepath"
+	"regexp"
 	"runtime/pprof"
 	"sort"
 	"strings"
@@ -469,6 +470,15 @@ func (pr *proc) progress() (unit, item, op int, ok bool) {
 	return int(int64(binary.LittleEndian.Uint64(b[0:]))), int(int64(binary.LittleEndian.Uint64(b[8:]))), int(int64(binary.LittleEndian.Uint64(b[16:]))), true
 }
 
+var hexRun = regexp.MustCompile(`[0-9a-fA-F]{16,}`)
+
+// MsgClass normalises a panic message to a class: long hexadecimal strings
+// (fingerprints, key material) become <hex>, then digits are collapsed as in
+// ev.MsgClass, so that one defect yields one signature.
+func MsgClass(s string) string {
+	return ev.MsgClass(hexRun.ReplaceAllString(s, "<hex>"))
+}
+
 // CrashClass extracts "<site>: <message class>" from the stderr of a Go process
 // that died of an unrecovered panic or a runtime fatal error: site = first
 // zcrypto frame of the first goroutine trace.
@@ -787,7 +797,7 @@ func (p *pool) handle(mi, slot int, j job, prp **proc, start func() bool, requeu
 						break wait
 					}
 					desc, der, _ := p.regenerate(u, it)
-					sig := fmt.Sprintf("panic@%s: %s [%s]", site, ev.MsgClass(msg), p.opName(op))
+					sig := fmt.Sprintf("panic@%s: %s [%s]", site, MsgClass(msg), p.opName(op))
 					p.addViol(&Viol{Sig: sig, N: 1, W: Witness{Mode: mode, Unit: p.units[u].Name, Item: it, Desc: desc, Op: p.opName(op), DER: hex.EncodeToString(der), Light: p.units[u].Light,
 						Detail: "the worker process died (panic outside the calling goroutine or runtime fatal error): " + msg}})
 					p.mu.Lock()
@@ -864,7 +874,7 @@ func (p *pool) handle(mi, slot int, j job, prp **proc, start func() bool, requeu
 					p.addViol(&Viol{Sig: fmt.Sprintf("hang [%s]", p.opName(op)), N: 1, W: w})
 				case acc == nil:
 					w.Detail = "isolated re-run after a stall died: " + msg
-					p.addViol(&Viol{Sig: fmt.Sprintf("panic@%s: %s [%s]", site, ev.MsgClass(msg), p.opName(op)), N: 1, W: w})
+					p.addViol(&Viol{Sig: fmt.Sprintf("panic@%s: %s [%s]", site, MsgClass(msg), p.opName(op)), N: 1, W: w})
 				default:
 					p.mu.Lock()
 					mr.Total.merge(acc)
@@ -924,8 +934,9 @@ func RunPool(c *ev.Ctx, cfg PoolConfig, units []Unit, order []int) *Result {
 	return p.res
 }
 
-// Order returns the hand-out order of units: seed units by decreasing size of
-// the seed (long units first), then the model shards; VERIF_SEED rotates it.
+// Order returns the hand-out order of units: the model shards first (if the
+// budget is cut short it is the seed menus that lose their tail), then the
+// seed units by decreasing size of the seed; VERIF_SEED rotates it.
 func Order(units []Unit, seed int64) []int {
 	var seeds, model []int
 	for i, u := range units {
@@ -936,7 +947,7 @@ func Order(units []Unit, seed int64) []int {
 		}
 	}
 	sort.SliceStable(seeds, func(a, b int) bool { return len(units[seeds[a]].Base) > len(units[seeds[b]].Base) })
-	order := append(seeds, model...)
+	order := append(model, seeds...)
 	if n := len(order); n > 0 && seed != 0 {
 		r := int(uint64(seed) % uint64(n))
 		order = append(order[r:], order[:r]...)
